@@ -259,3 +259,34 @@ Definition spec_throws (fn : Z) (a : argval) : option bool :=
   | 6 => Some (negb (spec_is_uint32 a))                                              (* 15.4.5.1 step 3.c *)
   | _ => None
   end.
+
+(* ------------------------------------------------------------------ *)
+(* in / instanceof, by the steps of ES5 11.8.7 and 11.8.6 / 15.3.5.3    *)
+
+(* 9.8 ToString of the left operand (8.12.8 [[DefaultValue]] hint String:
+   toString, then valueOf when the result is not primitive) *)
+Definition spec_tostring (l : lop) : list Z * bool :=
+  match l with
+  | LPrim => ([], false)
+  | LStr => ([1], false)
+  | LThrow => ([1], true)
+  | LVal => ([1; 2], false)
+  | LValThrow => ([1; 2], true)
+  end.
+
+Definition spec_order (op : Z) (l : lop) (r : rop) : Z * list Z :=
+  if op =? 0 then
+    (* 11.8.7 step 5: Type(rval) is not Object -> TypeError, before step 6 ToString(lval) *)
+    match r with
+    | RPrim => (6, [])
+    | RObj => let '(lg, thr) := spec_tostring l in if thr then (90, lg) else (1, lg)
+    | _ => let '(lg, thr) := spec_tostring l in if thr then (90, lg) else (0, lg)
+    end
+  else
+    (* 11.8.6 steps 5-7; 15.3.5.3: V not an object -> false; O = F.prototype not an object -> TypeError *)
+    match r with
+    | RPrim => (6, [])
+    | RObj => (6, [])
+    | RFun => match l with LPrim => (0, []) | _ => (1, []) end
+    | RFunBadProto => match l with LPrim => (0, []) | _ => (6, []) end
+    end.
